@@ -7,6 +7,7 @@ from __future__ import annotations
 
 import inspect
 import types
+from vt.stubs.ns import StubNS
 
 import z3
 
@@ -110,7 +111,7 @@ class WrapperTable(_NoReplay):
         self.log = []
         if case in LAMBDA_SPEC:
             log = self.log
-            stub = types.SimpleNamespace()
+            stub = StubNS()
             for nm in ("Bernoulli", "Categorical"):
                 setattr(stub, nm, (lambda nm: lambda *a, **k: TfpRec(log, nm, a, k))(nm))
             self._orig = D.tfd
@@ -301,3 +302,7 @@ class AllExported(_NoReplay):
     def ensures(self, case, path):
         exported = {n for n in dir(D) if isinstance(getattr(D, n), core.Distribution)}
         yield "24_distributions_exported_and_all_in_the_table", exported == set(SPEC) | set(LAMBDA_SPEC) and len(exported) == 24
+
+from vt.contract import canary as _canary  # noqa: E402
+
+_canary(TfpDistribution, "sampler", "sampled_with_the_given_key_and_sample_shape")
